@@ -127,6 +127,15 @@ def run(ctx, rep):
             for c1, c2 in ((1, 6), (6, 1), (0, 7), (7, 0), (2, 4)):
                 directed.append([('write', f, c1), ('load',), ('write', f, c2)])
                 directed.append([('write', f, c1), ('load',), ('write', f, c2), ('load',), ('write', f, c1)])
+        # the main file disappears and the deployment goes on changing while it is gone (directory edits, forced loads, the
+        # file coming back)
+        M = (None, None)
+        for c in (0, 1, 2):
+            for then in ([('write', (0, 'a.yaml'), 2)], [('write', (0, 'a.yaml'), 1), ('load',), ('delete', (0, 'a.yaml'))],
+                         [('force',)], [('write', (1, 'b.yaml'), 0), ('load',), ('write', (1, 'b.yaml'), 2)],
+                         [('write', M, 2)], [('touch', (0, 'a.yaml'))]):
+                directed.append([('write', M, c), ('load',), ('delete', M), ('load',)] + then)
+                directed.append([('write', M, c), ('write', (0, 'a.yaml'), 0), ('load',), ('delete', M), ('load',)] + then + [('load',), ('force',)])
         hists = directed + hists
         rnd = []
         big = ops_alphabet(4, len(CONTENTS)) + [('force',), ('register',)]
